@@ -579,6 +579,50 @@ def ob_reject_bad_dt():
     return Verdict(DISCHARGED, backend="ground evaluation", sub=4)
 
 
+def ob_native_switch(seed):
+    """X: ONE simulation carried through changes of time step, parameters and algorithm between steps; after each change its next step must equal the step of a
+    FRESH simulation started from the same (u, v, a) with the same settings (the symbolic obligations are per call: they cannot see state kept between calls)."""
+    import numpy as np
+    import contextlib, io
+    from EasyFEA import Models, Simulations, AlgoType
+    from contracts import patches
+    pre, connect = patches.star_patch("TRI3")
+    mesh = patches.real_mesh("TRI3", [[float(v) for v in p_] for p_ in pre], connect)
+    co = np.asarray(mesh.coord)
+    fixed = np.where(np.isclose(co[:, 0], co[:, 0].min()))[0]
+    loaded = np.where(np.isclose(co[:, 0], co[:, 0].max()))[0]
+
+    def mk():
+        sm = Simulations.Elastic(mesh, Models.Elastic.Isotropic(2, E=50.0, v=0.3, planeStress=True))
+        sm.rho = 2.0
+        sm.Set_Rayleigh_Damping_Coefs(0.05, 0.002) if hasattr(sm, "Set_Rayleigh_Damping_Coefs") else None
+        sm.add_dirichlet(fixed, [0, 0], ["x", "y"])
+        sm.add_neumann(loaded, [0.3, -0.1], ["x", "y"])
+        return sm
+    settings = [dict(dt=1e-2), dict(dt=1e-2), dict(dt=4e-3), dict(dt=4e-3, beta=0.3, gamma=0.6), dict(dt=4e-3, algo=AlgoType.hht, alpha=0.2), dict(dt=7e-3, algo=AlgoType.midpoint),
+                dict(dt=2e-3, algo=AlgoType.euler_implicit) if "euler_implicit" in AlgoType.__members__ else dict(dt=2e-3), dict(dt=5e-3, algo=AlgoType.hht_newmark, alpha=0.1) if "hht_newmark" in AlgoType.__members__ else dict(dt=5e-3)]
+    one = mk()
+    pt = one.problemType
+    n = 0
+    with contextlib.redirect_stdout(io.StringIO()):
+        for k, st in enumerate(settings):
+            u0, v0, a0 = one._Get_u_n(pt).copy(), one._Get_v_n(pt).copy(), one._Get_a_n(pt).copy()
+            one.Solver_Set_Hyperbolic_Algorithm(**st)
+            one.Solve()
+            fresh = mk()
+            fresh.Solver_Set_Hyperbolic_Algorithm(**st)
+            fresh._Set_solutions(pt, u0, v0, a0)
+            fresh.Solve()
+            for nm, a_, b_ in (("u", one._Get_u_n(pt), fresh._Get_u_n(pt)), ("v", one._Get_v_n(pt), fresh._Get_v_n(pt)), ("a", one._Get_a_n(pt), fresh._Get_a_n(pt))):
+                e = float(np.abs(a_ - b_).max() / (np.abs(b_).max() + 1e-30))
+                n += 1
+                if e > 1e-9:
+                    raise Refuted(f"step {k} with settings {({kk: str(vv) for kk, vv in st.items()})}: the simulation that went through the earlier settings gives another {nm} than a fresh simulation "
+                                  f"started from the same state (relative difference {e:.3e})", cex=dict(step=k, settings={kk: str(vv) for kk, vv in st.items()}), signature="native:switch",
+                                  replay=dict(confirmed=True, err=e))
+    return Verdict(DISCHARGED, backend="native simulation vs fresh simulation", sub=n)
+
+
 def build(tier: str, seed: int):
     F = tuple(f"{PATH}::{q}" for q in FN.values())
     obs = []
@@ -601,6 +645,8 @@ def build(tier: str, seed: int):
                   clause="hht_newmark derives beta=(1+alpha)^2/4, gamma=1/2+alpha for alpha in [0,1/3]; other schemes store the parameters as given"))
     obs.append(Ob("C05.setters.reject_dt", ob_reject_bad_dt, (), "P", (f"{PATH}::{FN['set_hyp']}", f"{PATH}::{FN['set_par']}"),
                   clause="dt <= 0 rejected"))
+    obs.append(Ob("C05.native.switch", ob_native_switch, (seed,), "X", (f"{PATH}::{FN['coefs']}", f"{PATH}::{FN['set_hyp']}"), bound="8 consecutive steps with changing dt / parameters / algorithm on one 4-element patch",
+                  clause="a step after a change of time-scheme settings == the step of a fresh simulation from the same state", timeout=600))
     # canaries (engine soundness): wrong specs must be refuted
     obs.append(Ob("canary.newmark.update.swapped", ob_update, ("newmark", True), "P", expect=REFUTED))
     obs.append(Ob("canary.hht.eom.extra_term", ob_eom, ("hht", True), "P", expect=REFUTED))
